@@ -34,7 +34,13 @@ def main():
     data = sys.stdin.buffer.read()
     sha = hashlib.sha256(data).hexdigest()
     ent = plan.get(sha) or plan.get("*") or {"o": "GaveUp", "stdout_b64": base64.b64encode(b"% SZS status GaveUp for x\n").decode(), "delay_ms": 0}
-    emit(log, {"ev": "START", "sha": sha, "pid": os.getpid(), "args": sys.argv[1:], "len": len(data)})
+    start = {"ev": "START", "sha": sha, "pid": os.getpid(), "args": sys.argv[1:], "len": len(data)}
+    if os.environ.get("STANDIN_WATCH"):      # number of problem files present when this prover starts (Pipeline.tla: FilesBeforeProvers)
+        try:
+            start["nfiles"] = len([f for f in os.listdir(os.environ["STANDIN_WATCH"]) if f.endswith(".p")])
+        except OSError:
+            start["nfiles"] = 0
+    emit(log, start)
     time.sleep(ent.get("delay_ms", 0) / 1000.0)
     sys.stdout.buffer.write(base64.b64decode(ent.get("stdout_b64", "")))
     sys.stdout.buffer.flush()
